@@ -20,12 +20,33 @@
       [ser] returns the child's term for it;
     - an extension by 0 bits: the debug assertion [by > 0] fires in debug builds.
 
+    Two variants of the code are mirrored, selected by [v : variant]:
+    - [Cur]: /repo as it is;
+    - [Fix]: /repo with patches/0014 ([is_simple_smt_identifier] refuses the reserved words of
+      SMT-LIB, so that they are written [|quoted|]) and patches/0015 ([SetInfo] is written
+      [set-info]).
+
     Executable definitions only. *)
 
 From Patronus Require Export Expr Smt EvalImpl.
 Open Scope string_scope.
 Open Scope list_scope.
 Open Scope N_scope.
+
+Inductive variant : Type := Cur | Fix.
+
+(** [SMT_RESERVED_WORDS] of patches/0014 *)
+Definition smt_reserved_words : list string :=
+  [ "!"; "_"; "as"; "BINARY"; "DECIMAL"; "exists"; "HEXADECIMAL"; "forall"; "let"; "match";
+    "NUMERAL"; "par"; "STRING"; "assert"; "check-sat"; "check-sat-assuming"; "declare-const";
+    "declare-datatype"; "declare-datatypes"; "declare-fun"; "declare-sort"; "define-fun";
+    "define-fun-rec"; "define-funs-rec"; "define-sort"; "echo"; "exit"; "get-assertions";
+    "get-assignment"; "get-info"; "get-model"; "get-option"; "get-proof"; "get-unsat-assumptions";
+    "get-unsat-core"; "get-value"; "pop"; "push"; "reset"; "reset-assertions"; "set-info";
+    "set-logic"; "set-option" ].
+
+Section V.
+Variable v : variant.
 
 (** ** identifiers *)
 
@@ -54,7 +75,11 @@ Fixpoint id_chars_ok (s : string) (first : bool) : bool :=
 Definition is_simple_id (s : string) : bool :=
   match s with
   | EmptyString => false
-  | _ => id_chars_ok s true
+  | _ =>
+      match v with
+      | Cur => id_chars_ok s true
+      | Fix => negb (str_in s smt_reserved_words) && id_chars_ok s true
+      end
   end.
 
 Definition escape_id (s : string) : string :=
@@ -234,8 +259,10 @@ Definition ser_cmd (c : smt_cmd) : res sx :=
   | CExit => Ok (SxList [SxAtom "exit"])
   | CCheckSat => Ok (SxList [SxAtom "check-sat"])
   | CSetLogic l => Ok (SxList [SxAtom "set-logic"; SxAtom (logic_str l)])
-  | CSetOption k v => Ok (SxList [SxAtom "set-option"; SxAtom (String.append ":" k); SxAtom (escape_id v)])
-  | CSetInfo k v => Ok (SxList [SxAtom "set-option"; SxAtom (String.append ":" k); SxAtom (escape_id v)])
+  | CSetOption k x => Ok (SxList [SxAtom "set-option"; SxAtom (String.append ":" k); SxAtom (escape_id x)])
+  | CSetInfo k x =>
+      Ok (SxList [SxAtom (match v with Cur => "set-option" | Fix => "set-info" end);
+                  SxAtom (String.append ":" k); SxAtom (escape_id x)])
   | CAssert e => Ok (SxList [SxAtom "assert"; ser e false])
   | CDeclareConst s =>
       match symbol_name_of s with
@@ -336,3 +363,5 @@ Definition sval_for (t : ty) (mb : bool) (v : N) (f : N -> N) : sval :=
   | TBV w => if mb then SVBits w v else if w =? 1 then SVBool (v =? 1) else SVBits w v
   | TArr i d => SVArr (elem_sort i) (elem_sort d) f
   end.
+
+End V.
